@@ -25,7 +25,7 @@ META = {
         'quick': {'subtype-queries': 1000, 'assoc-lookups-positive': 500, 'assoc-lookups-negative': 500,
                   'assoc-lookups-flipped': 200, 'assoc-lookups-subtype': 100, 'converse-links': 1000,
                   'illformed:unknown-super': 10, 'illformed:unknown-assoc-end': 10, 'illformed:unknown-field': 10,
-                  'illformed:unknown-step': 10, 'ag-edges-checked': 500},
+                  'illformed:unknown-step': 10, 'ag-edges-checked': 500, 'illformed-through-regenerate': 100},
         'thorough': {'subtype-queries': 100000, 'assoc-lookups-positive': 50000, 'assoc-lookups-negative': 50000,
                      'assoc-lookups-flipped': 20000, 'assoc-lookups-subtype': 10000, 'converse-links': 100000,
                      'illformed:unknown-super': 1000, 'illformed:unknown-assoc-end': 1000,
@@ -246,6 +246,24 @@ def _check_case(case, res, count=True):
                 res.count('illformed-raised')
             continue
         return ('langgraph.illformed:%s-accepted' % kind, 'ill-formed language (%s) was accepted without any error' % kind)
+    for kind, bad in case.get('illformed', [])[:1]:
+        # the same through regenerate_graph(): the graph was built from the well-formed specification, the dict it
+        # holds is then edited into the ill-formed variant
+        given = copy.deepcopy(case['spec'])
+        try:
+            lg2 = LanguageGraph(given)
+        except Exception:
+            break
+        given.clear()
+        given.update(copy.deepcopy(bad))
+        if count:
+            res.count('illformed-through-regenerate')
+        try:
+            lg2.regenerate_graph()
+        except Exception:
+            continue
+        return ('langgraph.illformed:%s-accepted-by-regenerate' % kind,
+                'after the held specification was edited into an ill-formed one (%s) regenerate_graph() reported no error' % kind)
     if case.get('amodel') is not None and not lang.same_signature_groups():
         try:
             built = Built(case, attackers=False)
